@@ -51,7 +51,7 @@ def one(seed):
 
 
 def main():
-    seeds = sys.argv[1:] or sorted(d for d in os.listdir(SEEDS) if os.path.isdir(os.path.join(SEEDS, d)))
+    seeds = sys.argv[1:] or sorted(d for d in os.listdir(SEEDS) if os.path.isfile(os.path.join(SEEDS, d, "patch.diff")))
     with ThreadPoolExecutor(max_workers=8) as ex:
         results = list(ex.map(one, seeds))
     sh(["git", "-C", "/repo", "worktree", "prune"])
